@@ -174,47 +174,44 @@ def get_unstable(regions, index):
         try:
             node_list = node_dict[c]
         except KeyError:
-            node_list = list(filter(lambda x: (x[1] == c), list(index.keys())))
+            node_list = list(
+                filter(lambda x: isinstance(x, tuple) and (x[1] == c), list(index.keys()))
+            )
             node_list.sort(key=lambda x: x[2])
             node_dict[c] = node_list
 
         node = search([contig[n], start[n], end[n]], node_list)
         if len(node) > 1:
-            logger.info("INFO: Region %s spans multiple nodes.\nThe nodes are:" % (node[n]))
-            for n in node:
-                logger.info("INFO: %s\t%s\t%d\t%d" % (n[0], n[1], n[2], n[3]))
+            logger.info("INFO: Region %s spans multiple nodes.\nThe nodes are:" % (regions[n]))
+            for nd in node:
+                logger.info("INFO: %s\t%s\t%d\t%d" % (nd[0], nd[1], nd[2], nd[3]))
 
-        result.append(node[0][0])
+        for nd in node:
+            result.append(nd[0])
 
     return result
 
 
 def search(node, node_list):
-    """Find the unstable node id from the region"""
+    """Find the indexed nodes whose stable interval intersects the region start-end (both included)"""
 
     s = 0
-    pos = 0
-    e = len(node_list) - 1
+    e = len(node_list)
     q_s = int(node[1])
     q_e = int(node[2])
-    while s != e:
-        m = int((s + e) / 2)
-        if (q_s >= node_list[m][2]) and (q_s < node_list[m][3]):
-            pos = m
-            break
-        elif q_s >= node_list[m][3]:
+    # bisection for the first node that ends after the start of the region;
+    # node_list only has the indexed nodes of the contig, so it can have gaps
+    while s < e:
+        m = (s + e) // 2
+        if node_list[m][3] <= q_s:
             s = m + 1
         else:
-            e = m - 1
-        pos = s
-    # if there is only one node for the entire contig (case for non-reference nodes)
-    # then the above loop is not executed and we extract the only node with pos=0
-    result = [node_list[pos]]
-    while True:
-        if q_e < node_list[pos][3]:
-            break
-        pos += 1
+            e = m
+    result = []
+    pos = s
+    while pos < len(node_list) and node_list[pos][2] <= q_e:
         result.append(node_list[pos])
+        pos += 1
 
     return result
 
